@@ -161,9 +161,17 @@ def _work(job):
     known = {}
     dropped = 0
     samples = []
+    timeouts = 0
     for i in range(lo, hi):
         case = sub.case(i)
+        if timeouts >= 3:
+            # three executions of this chunk already ran into the watchdog: the implementation hangs on this family;
+            # the violation is on record, the rest of the chunk is counted as not itemised instead of being waited for
+            dropped += hi - i
+            break
         out = run_case(sub, case)
+        if any(d.get("tags", {}).get("timeout") for d in out.disc):
+            timeouts += 1
         ev += 1
         for k in out.nontrivial:
             nontriv.add(k if isinstance(k, int) else h64(k))
@@ -347,7 +355,7 @@ def run_property(prop, tier, seed, replay=None, jobs=None, only=None):
                     sub.name, d["index"], d["message"][:300], _short(d["case"]), _short(d["expected"]),
                     _short(d["observed"])))
         if p["dropped"]:
-            lines.append("  (%s: %d further unlisted discrepancies not itemised)" % (sub.name, p["dropped"]))
+            lines.append("  (%s: %d further unlisted discrepancies, or cases skipped after repeated time-outs, not itemised)" % (sub.name, p["dropped"]))
         if p["evaluations"] != p["size"]:
             harness_error = True
             lines.append("HARNESS-ERROR %s: %d of %d cases evaluated" % (sub.name, p["evaluations"], p["size"]))
